@@ -57,7 +57,7 @@ ALL = R.TOOLS
 SITES = [
     ("tail_remark", ALL, lambda n: f"remark s{n}", ("last_comment_", "SCANprocess_semicolon")),
     ("tail_remark_spaced", ALL, lambda n: f"remark s{n}", ("last_comment_", "SCANprocess_semicolon")),
-    ("line_remark", ALL, lambda n: f"remark v{n},s40", ("last_comment_", "SCANsave_comment")),
+    ("line_remark", ALL, lambda n: f"remark v{n}", ("last_comment_", "SCANsave_comment")),
     ("nested_functions", ALL, lambda n: f"pushes {n + 1}", ("scopes",)),
     ("nested_procedures", ALL, lambda n: f"pushes {n + 1}", ("scopes",)),
     ("nested_queries", ALL, lambda n: f"pushes {n + 2}", ("scopes",)),
@@ -66,7 +66,6 @@ SITES = [
     ("string_literal", ["exppp"], lambda n: f"fmt raw {n}", ("raw", "wrap", "vsprintf", "exppp.c")),
     ("string_in_where", ["exppp"], lambda n: f"fmt raw {n}", ("raw", "wrap", "vsprintf", "exppp.c")),
     ("encoded_string", ["exppp"], lambda n: f"fmt wrap {max(8, n - n % 8) + 2}", ("raw", "wrap", "vsprintf", "exppp.c")),
-    ("binary_literal", ["exppp"], lambda n: f"fmt wrap {n + 1}", ("raw", "wrap", "vsprintf", "exppp.c")),
     ("ident_entity", ["exppp"], lambda n: f"fmt wrap {n}", ("raw", "wrap", "vsprintf", "exppp.c")),
     ("ident_constant", ["exppp"], lambda n: f"fmt wrap {n}", ("raw", "wrap", "vsprintf", "exppp.c")),
     ("ident_attribute", ["exppp"], lambda n: f"exprlen {n}", ("EXPRlength", "EXPRstring")),
@@ -164,7 +163,7 @@ class Runner:
         self.ctx.count(1)
         if r["cls"] not in R.BAD:
             return None
-        if sig is not None and r["sig"] != sig:
+        if sig is not None and r["sig"] != sig and not ("?" in sig and "?" in r["sig"]):
             return None
         return r
 
@@ -221,6 +220,18 @@ def minimise_lines(run, data, tool, args, timeout, budget=80, sig=None):
     return cur, last
 
 
+def make_key(tool, r, fam):
+    """stable key of a misbehaviour: the sanitizer signature (kind, object, first two stepcode frames); when the stack
+    could not be symbolised (smashed stack, plain SIGSEGV) the tool and the input family stand in for it"""
+    if "?" in r["sig"]:
+        key = f"{tool}:unsymbolised-crash|{fam or 'input'}"
+    else:
+        key = r["sig"]
+        if fam is not None and r["cls"] in ("timeout", "badexit"):
+            key = f"{tool}:{key}|{fam}"
+    return re.sub(r"\s+", "_", key)
+
+
 def site_of(sig):
     for fam, tools, q, marks in SITES:
         if any(m in sig for m in marks):
@@ -255,10 +266,7 @@ def report_bad(ctx, run, timeout):
             d2, r2 = minimise_lines(run, data, tool, args, tmo, sig=r["sig"])
             if r2:
                 data, r = d2, r2
-        key = ((tool + ":") if "?" in r["sig"] else "") + r["sig"]
-        if fam is not None and ("?" in r["sig"] or r["cls"] in ("timeout", "badexit")):
-            key += f"|{fam}"
-        key = re.sub(r"\s+", "_", key)
+        key = make_key(tool, r, fam)
         what = (f"{tool} {' '.join(args)} on {e['tag']}" + (f" (minimal n={mn})" if mn is not None else "") +
                 f": {r['cls']} [{r['sig']}] rc={r['rc']}" + (f"; also {', '.join(e['also'][:6])}" if e["also"] else ""))
         rep = {"tool": tool, "args": list(args), "class": r["cls"], "signature": r["sig"], "exit": r["rc"],
@@ -355,7 +363,7 @@ def run(ctx):
                 ncomp += 1
                 hit = r["cls"] == "sanitizer" and any(m in r["sig"] or m in r["err"][:1500] for m in marks)
                 ctx.hist("model_prediction", f"{fam.split('_')[0]}:{pc}")
-                if pc == "overflow" and not hit:
+                if pc == "overflow" and not hit and r["cls"] not in ("signal", "sanitizer"):
                     disagreements.append((fam, n, t, pred, f"{r['cls']} {r['sig']}"))
                 elif pc != "overflow" and hit:
                     disagreements.append((fam, n, t, pred, f"{r['cls']} {r['sig']}"))
@@ -508,7 +516,4 @@ def replay(ctx, path):
     ctx.count(1, key=("replay", r["tool"]))
     print(f"[C06] replay: {r['tool']} -> {res['cls']} rc={res['rc']} {res['sig']}", flush=True)
     if res["cls"] in R.BAD:
-        key = ((r["tool"] + ":") if "?" in res["sig"] else "") + res["sig"]
-        if r.get("family") and ("?" in res["sig"] or res["cls"] in ("timeout", "badexit")):
-            key += f"|{r['family']}"
-        ctx.violation(re.sub(r"\s+", "_", key), f"{r['tool']}: {res['cls']} [{res['sig']}] rc={res['rc']}", r)
+        ctx.violation(make_key(r["tool"], res, r.get("family")), f"{r['tool']}: {res['cls']} [{res['sig']}] rc={res['rc']}", r)
